@@ -577,7 +577,9 @@ class ChainedDiscretizer(BaseDiscretizer):
                         order.append(self.str_nan)
                     # adding unknown to the order
                     for unknown_value in unknown_values:
-                        order.append(unknown_value)
+                        # (already in the order when the column was converted to strings)
+                        if unknown_value not in order:
+                            order.append(unknown_value)
                         # grouping unknown value with str_nan
                         order.group(unknown_value, self.str_nan)
 
